@@ -82,6 +82,10 @@ type Phase struct {
 type Case struct {
 	Ser    string  `json:"ser"` // bin | json
 	Phases []Phase `json:"phases"`
+	// SinkFail > 0: the SinkFail-th LOG entry handed to the sink (counted over the whole run) is rejected with an
+	// error and not written (a transient I/O error). The call goes on; its rejected entry is missing from the log,
+	// and the log must still verify: chain, signatures, groundings (seeded defect S-C26-4).
+	SinkFail int `json:"sink_fail,omitempty"`
 }
 
 // ---- per-call bookkeeping --------------------------------------------------------------
@@ -451,7 +455,13 @@ type stampSink struct {
 	inner sink.Sink
 	clk   *atomic.Int64
 	recs  map[string]*callRec // read-only while a phase runs
+	// fault: the failAt-th LOG entry (counter shared by all phases) is rejected
+	logWrites *atomic.Int64
+	failAt    int64
+	dropped   *sync.Map // request id -> true
 }
+
+var errSinkFault = errors.New("verif: transient sink failure")
 
 func (s *stampSink) WriteEntry(e *auditlog.Entry) error {
 	var r *callRec
@@ -462,6 +472,10 @@ func (s *stampSink) WriteEntry(e *auditlog.Entry) error {
 	}
 	if r != nil && ph == auditlog.PhaseComplete {
 		r.complBegin.CompareAndSwap(0, s.clk.Add(1))
+	}
+	if d, isLog := e.Details.(*auditlog.LogDetails); isLog && s.failAt > 0 && s.logWrites.Add(1) == s.failAt {
+		s.dropped.Store(d.Request.RequestID, true)
+		return errSinkFault
 	}
 	err := s.inner.WriteEntry(e)
 	if r != nil && ph == auditlog.PhaseStart && err == nil {
@@ -496,6 +510,8 @@ func run(env *ev.Env, c Case) (o ev.Outcome) {
 	o.Class(fmt.Sprintf("phases:%d", len(c.Phases)))
 
 	clk := &atomic.Int64{}
+	var logWrites atomic.Int64
+	var dropped sync.Map
 	var all []*callRec
 	maxInflight := int64(0)
 	ctxBase := context.Background()
@@ -553,7 +569,7 @@ func run(env *ev.Env, c Case) (o ev.Outcome) {
 			}
 		}
 		stb := &stub{clk: clk, yield: ph.Yield}
-		ss := &stampSink{inner: fs, clk: clk, recs: recs}
+		ss := &stampSink{inner: fs, clk: clk, recs: recs, logWrites: &logWrites, failAt: int64(c.SinkFail), dropped: &dropped}
 		mw := audit.NewAuditLogMiddleware(stb, ss, edSigner, mlSigner, lastHash, buf)
 		var wg sync.WaitGroup
 		startGate := make(chan struct{})
@@ -663,6 +679,7 @@ func run(env *ev.Env, c Case) (o ev.Outcome) {
 	// ---- every call: START before, COMPLETE after, matching outcome -------------------
 	known := 0
 	recorded := 0
+	extraLog := 0
 	for _, r := range all {
 		def := opTable[r.op]
 		o.Sub++
@@ -675,6 +692,14 @@ func run(env *ev.Env, c Case) (o ev.Outcome) {
 			return
 		}
 		s := byID[r.id]
+		if _, was := dropped.Load(r.id); was {
+			// one entry of this call was rejected by the sink: it is not in the log; what was written counts
+			o.Class("call-with-an-entry-rejected-by-the-sink")
+			if s != nil {
+				extraLog += len(s.start) + len(s.complete)
+			}
+			continue
+		}
 		if s == nil {
 			if def.op == "" && env.Known(matcherUnaudited) {
 				known++
@@ -734,7 +759,7 @@ func run(env *ev.Env, c Case) (o ev.Outcome) {
 			}
 		}
 	}
-	if nLog != 2*recorded {
+	if nLog != 2*recorded+extraLog {
 		o.Failf("%d LOG entries for %d recorded calls", nLog, recorded)
 		return
 	}
@@ -861,6 +886,9 @@ func genCase(t *rapid.T, env *ev.Env) Case {
 	if first >= total {
 		total = first + rapid.IntRange(1, 600).Draw(t, "more")
 	}
+	if rapid.IntRange(0, 3).Draw(t, "sinkFail") == 2 {
+		c.SinkFail = rapid.IntRange(1, 2*total).Draw(t, "sinkFailAt")
+	}
 	sizes := []int{first, total - first}
 	if nPh == 3 && sizes[1] >= 2 {
 		m := rapid.IntRange(1, sizes[1]-1).Draw(t, "mid")
@@ -903,12 +931,15 @@ func directed(env *ev.Env) []Case {
 		}
 		return c
 	}
+	withSinkFail := func(c Case, at int) Case { c.SinkFail = at; return c }
 	return []Case{
-		mk("bin", 500, 700),      // restart exactly after the first grounding
-		mk("json", 1000, 300),    // restart exactly after the second grounding
-		mk("bin", 499, 800),      // two entries before the edge
-		mk("json", 501, 600),     // two entries after the edge
-		mk("bin", 250, 250, 800), // two restarts, second one on the edge
+		withSinkFail(mk("bin", 300, 300), 8),     // one rejected entry early in the first block
+		withSinkFail(mk("json", 600, 100), 1001), // the rejected entry is the first one after a grounding
+		mk("bin", 500, 700),                      // restart exactly after the first grounding
+		mk("json", 1000, 300),                    // restart exactly after the second grounding
+		mk("bin", 499, 800),                      // two entries before the edge
+		mk("json", 501, 600),                     // two entries after the edge
+		mk("bin", 250, 250, 800),                 // two restarts, second one on the edge
 	}
 }
 
